@@ -511,10 +511,13 @@ fn branch_heads(toks: &[String], from: usize, to: usize) -> Vec<String> {
         let mut k = eq + 1;
         depth = 0;
         let mut name: Option<String> = None;
+        // a branch precondition `<future>, if <condition> =>`: the branch is disabled while the condition is false
+        let mut guard_at: Option<usize> = None;
         while k + 1 < to {
             match toks[k].as_str() {
+                "," if depth == 0 && toks[k + 1] == "if" && guard_at.is_none() => guard_at = Some(k),
                 "(" | "{" | "[" => {
-                    if depth == 0 && toks[k] == "(" && k > eq + 1 && is_ident(&toks[k - 1]) {
+                    if depth == 0 && toks[k] == "(" && k > eq + 1 && is_ident(&toks[k - 1]) && guard_at.is_none() {
                         name = Some(toks[k - 1].clone());
                     }
                     depth += 1;
@@ -529,9 +532,11 @@ fn branch_heads(toks: &[String], from: usize, to: usize) -> Vec<String> {
             k += 1;
         }
         if name.is_none() {
-            name = toks[eq + 1..k.min(to)].iter().rev().find(|t| is_ident(t) && t.as_str() != "mut").cloned();
+            let end = guard_at.unwrap_or(k).min(to);
+            name = toks[eq + 1..end].iter().rev().find(|t| is_ident(t) && t.as_str() != "mut").cloned();
         }
-        heads.push(name.unwrap_or_else(|| "?".to_string()));
+        let head = name.unwrap_or_else(|| "?".to_string());
+        heads.push(if guard_at.is_some() { format!("{}[if]", head) } else { head });
         // skip the handler: a { } block, or an expression up to the next `,` at depth 0
         let mut m = k + 2;
         if m < to && toks[m] == "{" {
